@@ -1,6 +1,7 @@
 package verifsim
 
 import (
+	crand "crypto/rand"
 	"fmt"
 	"os"
 	"math/rand"
@@ -8,6 +9,7 @@ import (
 	"runtime/debug"
 	"sort"
 	"strings"
+	"sync"
 	"testing"
 	"testing/synctest"
 	"time"
@@ -110,6 +112,10 @@ func ExecPlan(t *testing.T, p *Plan, prop Property, keepLog bool) (run *Run) {
 		}
 		uninstallHooks()
 	}()
+	// crypto/rand feeds variable-length message ids into response bytes: pin it per run
+	oldReader := crand.Reader
+	crand.Reader = &detReader{state: mix64(p.Seed ^ 0xC0FFEE)}
+	defer func() { crand.Reader = oldReader }()
 	baseG := runtime.NumGoroutine()
 	synctest.Test(t, func(t *testing.T) {
 		s := NewSim(p.Seed, keepLog)
@@ -287,4 +293,22 @@ func applyHostMode(s *Sim, b *Backend, mode string) {
 	case "up":
 		s.SetHostMode(b.cfg.Host, "up")
 	}
+}
+
+// detReader is a deterministic replacement for crypto/rand.Reader during a run.
+type detReader struct {
+	mu    sync.Mutex
+	state uint64
+}
+
+func (d *detReader) Read(p []byte) (int, error) {
+	d.mu.Lock()
+	defer d.mu.Unlock()
+	for i := range p {
+		if i%8 == 0 {
+			d.state = mix64(d.state)
+		}
+		p[i] = byte(d.state >> (8 * uint(i%8)))
+	}
+	return len(p), nil
 }
